@@ -48,19 +48,19 @@ class ExtendNode(ConfigList):
     @namespace('ayns')
     def on_premerge_impl(self, path, into):
         if into is None:
-            return ConfigList(self)
+            return ConfigList(self)._replace_other(self) # the plain list stands for this node: it keeps its safety and metadata
 
         try:
             node = into.ayns.get_node(path)
         except KeyError:
-            return ConfigList(self)
+            return ConfigList(self)._replace_other(self) # the plain list stands for this node: it keeps its safety and metadata
 
         if hasattr(node, 'extend'):
             node.extend(self)
             into.ayns.remove_node(path)
             return node
 
-        return ConfigList(self)
+        return ConfigList(self)._replace_other(self) # the plain list stands for this node: it keeps its safety and metadata
 
     @namespace('ayns')
     @staticproperty
